@@ -1215,6 +1215,23 @@ func runC03(cfg Config, r *Result) {
 			add(c)
 		}
 	}
+	// decorated generated programs as mutation bases: comments at every legal position, blank runs and
+	// multi-line array/map literals with comments between their items (layouts the repository corpus hardly
+	// has), so that every prefix / deletion also cuts inside those
+	for k := 0; k < cfg.N(30, 300); k++ {
+		src, _, _ := GenProgram(rng, fmtGenOpts[k%len(fmtGenOpts)])
+		src = decorate(rng, src, 0.5)
+		if len(src) < 20 || len(src) > cfg.N(1200, 4000) {
+			continue
+		}
+		add(mutCase{src, "decorated-program"})
+		var ms []mutCase
+		mutate(corpusProg{Src: src}, kinds, rng, cfg.N(12, 60), &ms)
+		for _, c := range ms {
+			c.Stream = "decorated:" + c.Stream
+			add(c)
+		}
+	}
 	for k := 0; k < cfg.N(150, 3000) && len(small) > 1; k++ { // splices
 		a, b := spans(small[rng.Intn(len(small))].Src), spans(small[rng.Intn(len(small))].Src)
 		i, j := rng.Intn(len(a)+1), rng.Intn(len(b)+1)
